@@ -264,6 +264,9 @@ class SArr:
         Unsupported).  Recorded as a tag so that the evidence shows where the claim was decided by
         case split over cell values instead of symbolically."""
         c = cur()
+        if not c.allow_realise:
+            raise Unsupported("a symbolic array reached compiled numpy code (realisation is only enabled in runs "
+                              "with small finite cell domains)")
         c.tag("realised_array_at_C_boundary")
         out = np.empty(self.c.shape, dtype=object)
         for idx in np.ndindex(*self.c.shape):
@@ -316,6 +319,12 @@ class SArr:
         return f"SArr{self.c.shape}"
 
     # ---- reductions as methods
+    def clip(self, a_min=None, a_max=None, **kw):
+        return _clip(self, a_min, a_max)
+
+    def min(self, axis=None):
+        return _min(self, axis)
+
     def max(self, axis=None):
         return _max(self, axis)
 
@@ -567,6 +576,34 @@ def _expand_dims(a, axis):
 @implements(np.squeeze)
 def _squeeze(a, axis=None):
     return SArr(np.squeeze(a.c, axis), a.dtype)
+
+
+@implements(np.clip)
+def _clip(a, a_min=None, a_max=None, **kw):
+    a = _as_sarr(a)
+    out = np.empty(a.c.shape, dtype=object)
+    for idx in np.ndindex(*out.shape):
+        e = a.c[idx]
+        if a_min is not None:
+            lo = lift(a_min)
+            e = If(e < lo, lo, e)
+        if a_max is not None:
+            hi = lift(a_max)
+            e = If(e > hi, hi, e)
+        out[idx] = _simp(e)
+    return SArr(out, a.dtype)
+
+
+@implements(np.minimum)
+def _minimum(a, b, **kw):
+    a = _as_sarr(a)
+    return a._ew(b, lambda x, y: If(x < y, x, y))
+
+
+@implements(np.maximum)
+def _maximum(a, b, **kw):
+    a = _as_sarr(a)
+    return a._ew(b, lambda x, y: If(x > y, x, y))
 
 
 @implements(np.prod)
